@@ -204,6 +204,15 @@ def build(body: Body, alpha: Alphabet, fx=None, depth=0, _prefix=(), _sinks=None
         if k == "call":
             lab = alpha.call_label(t)
             ev = ("call:" + lab) if lab else None
+            if not top and t["dest"] == [0] and (t.get("callee") or "").endswith("FromResidual::from_residual"):
+                rty = body.locals[0]["ty"]
+                rv = "Err" if rty.startswith("core::result::Result<") else ("None" if rty.startswith("core::option::Option<") else None)
+                if rv:
+                    mid = node(bi, pos + 1)
+                    n.add(cur, "iret:%s|%s" % (body.name, rv), mid, loc)
+                    n.has_corr = True
+                    cur = mid
+                    pos += 1
             if retval and t["dest"] == [0] and (t.get("callee") or "").endswith("FromResidual::from_residual"):
                 # `?` error branch writes the return place
                 mid = node(bi, pos + 1)
@@ -400,7 +409,14 @@ def _corr_labels(fx, body, t):
     if len(r.get("p", [])) != 1:
         return {}  # only the returned value itself (not one of its fields)
     callee = None
-    for so in body.origins(r["p"]):
+    srcs = body.origins(r["p"], through_calls=False)
+    via_branch = False
+    if len(srcs) == 1 and next(iter(srcs)).kind == "call" and not next(iter(srcs)).proj and (body.call_at(next(iter(srcs))).get("callee") or "").endswith("Try::branch"):
+        # `helper()?`: the match is on ControlFlow; Continue stands for Ok / Some of what the helper returned, Break for Err / None
+        bt = body.call_at(next(iter(srcs)))
+        srcs = body.origins(bt["args"][0], through_calls=False)
+        via_branch = True
+    for so in srcs:
         c = None
         if so.kind == "await" and not so.proj:
             co = _awaited_local_coroutine(fx, body, so.site[0])
@@ -415,15 +431,23 @@ def _corr_labels(fx, body, t):
         return {}
     out = {}
     seen = set()
+
+    def tr(vn):
+        if not via_branch:
+            return vn
+        return {"Continue": "{Ok,Some}", "Break": "{Err,None}"}.get(vn, vn)
     for (val, _b) in t["targets"]:
         vn = variants.get(val)
         if vn is None:
             return {}
-        out[val] = "isw:%s|%s" % (callee, vn)
+        out[val] = "isw:%s|%s" % (callee, tr(vn))
         seen.add(vn)
     rest = [v for v in variants.values() if v not in seen]
     if rest:
-        out["otherwise"] = "isw:%s|{%s}" % (callee, ",".join(sorted(rest)))
+        if via_branch and len(rest) == 1:
+            out["otherwise"] = "isw:%s|%s" % (callee, tr(rest[0]))
+        else:
+            out["otherwise"] = "isw:%s|{%s}" % (callee, ",".join(sorted(rest)))
     return out
 
 
